@@ -99,6 +99,7 @@ type outPack struct {
 }
 
 type world struct {
+	reverseTargetLists bool // the fake downstream lists the shards of a collection in reverse order
 	sameName bool // every collection is called "docs" (callers give each its own database)
 	rid     string
 	taskID  string
@@ -158,10 +159,16 @@ type worldOpts struct {
 	// eventGate, when set, holds the consumer of the API event channel until the gate is closed (the server's event loop
 	// handles one event at a time and each can take seconds of downstream retries, so the 10-slot channel does fill up).
 	eventGate chan struct{}
+	// prefixRelatedChannelNumbers: physical channels are numbered 0, 1, 10 (names in prefix relation: dml_1 / dml_10)
+	prefixRelatedChannelNumbers bool
 }
 
 func newWorld(o worldOpts) *world {
 	quiesce.SetBaseline() // goroutines left behind by earlier cases of this process are not part of this case
+	chanNumber = func(i int) int { return i }
+	if o.prefixRelatedChannelNumbers {
+		chanNumber = func(i int) int { return []int{0, 1, 10, 11, 100}[i] }
+	}
 	w := &world{chans: map[string]bool{}}
 	w.rid = fmt.Sprintf("case-%d-%d", time.Now().UnixNano(), atomic.AddInt64(&caseSeq, 1))
 	w.taskID = "task-" + w.rid
@@ -284,8 +291,12 @@ func (w *world) tick() int {
 	return w.clock
 }
 
-func srcPChan(i int) string { return fmt.Sprintf("src-dml_%d", i) }
-func tgtPChan(i int) string { return fmt.Sprintf("tgt-dml_%d", i) }
+// chanNumber maps a channel index to the number in the channel name. By default the identity; a case may select numbers in
+// prefix relation (0, 1, 10), as in a cluster with more than ten physical channels (set per case: cases run one at a time).
+var chanNumber = func(i int) int { return i }
+
+func srcPChan(i int) string { return fmt.Sprintf("src-dml_%d", chanNumber(i)) }
+func tgtPChan(i int) string { return fmt.Sprintf("tgt-dml_%d", chanNumber(i)) }
 
 // addCollection defines a collection placed on the given source / target physical channel indices and
 // makes it visible downstream (unless absent is set).
@@ -339,7 +350,13 @@ func (w *world) addCollection(idx int, db string, srcIdx, tgtIdx []int, parts []
 
 func (w *world) putDownstream(c *collDef) {
 	tc := &target.Coll{DB: c.db, Name: c.name, ID: c.tid, VChannels: append([]string(nil), c.tgtVChan...), Partitions: map[string]int64{}, Hidden: map[string]int{}}
-	for _, v := range c.tgtVChan {
+	if w.reverseTargetLists {
+		// the downstream may list the shards of a collection in any order
+		for i, j := 0, len(tc.VChannels)-1; i < j; i, j = i+1, j-1 {
+			tc.VChannels[i], tc.VChannels[j] = tc.VChannels[j], tc.VChannels[i]
+		}
+	}
+	for _, v := range tc.VChannels {
 		tc.PChannels = append(tc.PChannels, toP(v))
 	}
 	for _, p := range c.parts {
